@@ -212,6 +212,7 @@ fn emit_wrapped_loop_choice_body(
 
         if choice.has_choice_only_content
             && !choice.has_start_content
+            && choice.body_divert_is_inline
             && matches!(choice.body.as_slice(), [Node::Divert(_)])
         {
             branch_nodes.extend(tokenize_inline_content(&format!(" {selected_text}"))?);
@@ -232,17 +233,27 @@ fn emit_wrapped_loop_choice_body(
         } else {
             if !choice.has_start_content {
                 branch_nodes.extend(tokenize_inline_content(selected_text)?);
+            } else if let Some(end_text) = selected_text.strip_prefix(choice.start_text.trim_end())
+            {
+                // The start content is printed by the shared `s` container; what
+                // follows it in the selected text is the text after `]`.
+                branch_nodes.extend(tokenize_inline_content(end_text)?);
             }
             branch_nodes.extend(choice.selected_tags.iter().cloned().map(Node::Tag));
         }
-        if !body_already_emitted && !choice.has_start_content {
+        if !body_already_emitted && choice.body_divert_is_inline && !choice.body.is_empty() {
+            // A divert written on the choice line comes before the line break that ends
+            // the line: the text joins the first line of the target.
+            branch_nodes.push(choice.body[0].clone());
+            branch_nodes.push(Node::Newline);
+            branch_nodes.extend(choice.body[1..].iter().cloned());
+            body_already_emitted = true;
+        } else if !body_already_emitted {
             let body_is_terminal_divert = matches!(
                 choice.body.as_slice(),
                 [Node::Divert(d)] if d.target == "END" || d.target == "DONE"
             );
-            let body_is_inline_divert = matches!(choice.body.as_slice(), [Node::Divert(_)])
-                && selected_text.ends_with(char::is_whitespace);
-            if !body_is_terminal_divert && !body_is_inline_divert {
+            if !body_is_terminal_divert {
                 branch_nodes.push(Node::Newline);
             }
         }
@@ -328,7 +339,6 @@ fn emit_wrapped_loop_choice_body(
         json!({"temp=": "$r"}),
         json!({"->": format!("{}.{}.s", config.choices_prefix, config.header_idx)}),
         Value::Array(vec![json!({"#n": "$r2"})]),
-        json!("\n"),
     ];
     out.append(&mut arr);
     out.push(last);
